@@ -24,15 +24,34 @@ _PIN[0] += ["--remove-function-body", "evmap_check_integrity_"]
 _PIN.append(["--generate-function-body", "evmap_check_integrity_", "--generate-function-body-options", "nondet-return"])
 KINDS = ["K_TIMER", "K_TIMER_P", "K_IO", "K_IO_P", "K_SIG_P"]
 
-def _ob(k0, k1, L, **kw):
-    d = dict(name="hist_%s_%s_len%d" % (k0[2:].lower(), k1[2:].lower(), L), harness="C02_statemachine.c", entry="harness_history",
-             sources=[], defines=["C02_KIND0=" + k0, "C02_KIND1=" + k1, "C02_LEN=%d" % L],
-             unwind=10, unwindset=["run:%d" % (L + 2)], instrument=_PIN, timeout=900, mem_gb=4, cbmc=["--object-bits", "12", "--no-standard-checks"],
-             desc="all histories of %d API calls over a %s and a %s event vs the reference model" % (L, k0, k1))
+def _ob(k0, k1, L, prefix=(), **kw):
+    defs = ["C02_KIND0=" + k0, "C02_KIND1=" + k1, "C02_LEN=%d" % L]
+    name = "hist_%s_%s_len%d" % (k0[2:].lower(), k1[2:].lower(), L)
+    if any(k in ("K_IO", "K_IO_P", "K_SIG_P") for k in (k0, k1)): defs.append("C02_HAS_IO")
+    if L >= 2 and prefix and prefix[0] < 24 and (prefix[0] % 12) in (1, 2, 4, 5, 6, 7, 8): defs.append("C02_EXPECT_CB")
+    if prefix:
+        defs.append("C02_PREFIX=" + ",".join(str(p) for p in prefix)); name += "_pre" + "_".join(str(p) for p in prefix)
+    d = dict(name=name, harness="C02_statemachine.c", entry="harness_history",
+             sources=[], defines=defs,
+             unwind=10, unwindset=["run:%d" % (L + 2)], instrument=_PIN, timeout=900, mem_gb=2, cbmc=["--object-bits", "12", "--no-standard-checks"],
+             desc="all histories of %d API calls (26 alternatives per call%s) over a %s and a %s event vs the reference model" % (L, "; first %d fixed: %s" % (len(prefix), list(prefix)) if prefix else "", k0, k1))
     d.update(kw)
     if _T: d["timeout"] = _T
     return d
 
+def _allowed(kinds, sel):
+    if sel >= 24: return True
+    k = kinds[1] if sel >= 12 else kinds[0]; o = sel % 12
+    if k == "K_IO_P" and o in (1, 2): return False
+    if k == "K_SIG_P" and 4 <= o <= 8: return False
+    return True
+
 def obligations(tier):
-    obs = [_ob("K_TIMER", "K_IO_P", 1), _ob("K_TIMER", "K_IO_P", 2)]
+    pairs = [("K_TIMER", "K_IO_P"), ("K_IO", "K_TIMER_P")] if tier == "quick" else \
+            [("K_TIMER", "K_IO_P"), ("K_IO", "K_TIMER_P"), ("K_TIMER", "K_TIMER_P"), ("K_IO", "K_SIG_P"), ("K_IO", "K_IO"), ("K_TIMER_P", "K_TIMER_P")]
+    obs = []
+    for kinds in pairs:
+        for sel in range(26):
+            if _allowed(kinds, sel):
+                obs.append(_ob(kinds[0], kinds[1], 2, prefix=(sel,)))
     return obs
